@@ -366,6 +366,10 @@ class _Norm:
             def visit_Call(self, c):
                 if isinstance(c.func, ast.Name) and c.func.id == "other_side" and len(c.args) == 1:
                     return self._tok(c) or self.generic_visit(c)
+                if c.keywords:
+                    dflt = _defaults_by_name(me.ctx, c.func.attr if isinstance(c.func, ast.Attribute) else (c.func.id if isinstance(c.func, ast.Name) else None))
+                    if dflt:
+                        c.keywords = [k for k in c.keywords if not (k.arg in dflt and isinstance(k.value, ast.Constant) and dflt[k.arg] == ast.unparse(k.value))]
                 if isinstance(c.func, ast.Name) and c.func.id in ("any", "all") and c.args:
                     c.args[0]._searched = True
                 return self.generic_visit(c)
@@ -787,6 +791,23 @@ def _defaults_of(g) -> Dict[str, str]:
     return out
 
 
+def _defaults_by_name(ctx, name):
+    """{keyword: default text} on which every analysed function called `name` agrees"""
+    if name is None:
+        return {}
+    cache = ctx.__dict__.setdefault("_decision_defaults", {})
+    if name not in cache:
+        cands = [g for g in ctx.prog.functions.values() if not isinstance(g.node, ast.Lambda) and g.name == name]
+        maps = [_defaults_of(g) for g in cands]
+        out = {}
+        if maps:
+            for k in set.intersection(*[set(m) for m in maps]):
+                if len({m[k] for m in maps}) == 1:
+                    out[k] = maps[0][k]
+        cache[name] = out
+    return cache[name]
+
+
 def _is_default(c0: ast.Call, pos, i_or_name, v) -> bool:
     """the argument is a constant equal to the callee's default for that parameter: passing it or leaving it out is the same call"""
     d = _DEFAULTS.get(id(c0))
@@ -890,7 +911,7 @@ def build_table(ctx: Ctx):
             continue
         helper = _single_caller(ctx, r[0])
         for shape, (gen, dtext, _raw, _d, _sts) in r[1].items():
-            t["%s|%s" % (spec, shape)] = {"atoms": gen, "when": dtext}
+            t["%s|%s" % (spec, shape)] = {"atoms": gen, "when": dtext, "n": len(_sts)}
             if helper:
                 t["%s|%s" % (spec, shape)]["helper"] = True      # also read as part of its only caller: inlining it there is not a change
     return t
@@ -1016,8 +1037,8 @@ def decision_table(ctx: Ctx, rep: Report, rid: str, functions=None, shapes: str 
                     n += 1
                 rep.ok(rid, key, ctx.line(f, sts[0]), "taken exactly when %s over %s" % (dtext, gen or "no guard"), nontrivial=bool(gen), func=f.qname)
                 continue
-            if tolerant and len(gen) != len(old["atoms"]) and shape != "break":
-                continue
+            if tolerant and shape != "break" and (len(gen) != len(old["atoms"]) or len(sts) != old.get("n", len(sts))):
+                continue        # bookkeeping shapes are compared only between two spellings with the same number of such statements
             if gen == old["atoms"]:
                 asg, val = difference(d, parse_diagram(old["when"]), len(gen))
                 why = "in the state [%s] the action is %s taken, the table says the opposite" % (_state(raw, asg), "now" if val else "no longer")
